@@ -24,7 +24,7 @@ META = {
             "0.3-1.1 x members, three lookup schedules. Non-trivial = every "
             "history; "
             "distinct = hash of the operation list.",
-    "reach": {"replicas_compared": 500, "final_answers_compared": 500000,
+    "reach": {"replicas_compared": 200, "final_answers_compared": 500000,
               # harness-side count of index-affecting edits pending on a
               # container when a targeted lookup is placed (independent of
               # private names; the lazy:* counters from the diagnostic hook
